@@ -127,11 +127,13 @@ def _exit(run, P):
         tb = first("V_t = self.sym_kind_table.per_phase_table.get(self.current_function, ANY)", f.node)
         tbl_ok = tb[0] is not None
         it_ok = tbl_ok and norm(lp.iter) == f"sorted({tb[1]['V_t']}.items())"
-        body_ok = len(lp.body) == 1 and isinstance(lp.body[0], ast.Expr) \
-            and isinstance(lp.body[0].value, ast.Call) \
-            and dotted(lp.body[0].value.func) == "self.emit_variable_deinit" \
+        from .util import core
+        cb = core(lp.body, lambda s_: "self.emit_variable_deinit" in ast.unparse(s_))
+        body_ok = len(cb) == 1 and isinstance(cb[0], ast.Expr) \
+            and isinstance(cb[0].value, ast.Call) \
+            and dotted(cb[0].value.func) == "self.emit_variable_deinit" \
             and isinstance(lp.target, ast.Tuple) \
-            and [dotted(a_) for a_ in lp.body[0].value.args] == [dotted(t_) for t_ in lp.target.elts]
+            and [dotted(a_) for a_ in cb[0].value.args] == [dotted(t_) for t_ in lp.target.elts]
         ok = after and it_ok and body_ok and tbl_ok
     run.ob("C12.exit", f, site, ok,
            construct="after the exit label: for every (identifier, kind) of the phase's "
@@ -333,8 +335,9 @@ def _init_shutdown(run, P):
     if loops:
         lp = loops[0]
         tb = first("V_t = self.sym_kind_table.per_phase_table.get(phase_id, ANY)", f.node)
+        from .util import core
         ok = tb[0] is not None and f"sorted({tb[1]['V_t']}.items())" == norm(lp.iter) \
-            and len(lp.body) == 1
+            and len(core(lp.body, lambda s_: "self.emit_variable_init" in ast.unparse(s_))) == 1
     run.ob("C12.init", f, loops[0] if loops else f.node, ok,
            construct="function entry: emit_variable_init for every symbol-table entry, no filter",
            why="a user-type local that is not nullified looks associated to the "
@@ -343,8 +346,9 @@ def _init_shutdown(run, P):
     loops = [n for n in ast.walk(fi.node) if isinstance(n, ast.For) and any(
         isinstance(x, ast.Call) and dotted(x.func) == "self.emit_variable_init"
         for x in ast.walk(n))]
+    from .util import core
     ok = bool(loops) and "sorted(self.sym_kind_table.global_table.items())" == norm(loops[0].iter) \
-        and len(loops[0].body) == 1
+        and len(core(loops[0].body, lambda s_: "self.emit_variable_init" in ast.unparse(s_))) == 1
     run.ob("C12.init", fi, loops[0] if loops else fi.node, ok,
            construct="initialize: emit_variable_init for every global entry, no filter",
            why="state components start unassociated")
@@ -355,7 +359,8 @@ def _init_shutdown(run, P):
                                    dotted(x.func) == "self.emit_variable_deinit"
                                    for x in ast.walk(n))]
     rep = [n for n in loops if "leaked reference" in ast.unparse(n)]
-    ok = bool(rel) and bool(rep) and len(rel[0].body) == 1 \
+    ok = bool(rel) and bool(rep) \
+        and len(core(rel[0].body, lambda s_: "self.emit_variable_deinit" in ast.unparse(s_))) == 1 \
         and norm(rel[0].iter) == "sorted(self.sym_kind_table.global_table.items())" \
         and not g.always_preceded([g.node_of(rep[0])], [g.node_of(rel[0])])
     run.ob("C12.shutdown", fs, rel[0] if rel else fs.node, ok,
@@ -436,8 +441,8 @@ def _lastuse(run, P):
             if m1_[0] is not None and m2_[0] is not None \
                     and has(f"V_last = self.last_used_stmt_table[V_var, self.current_function]",
                             d.node, {"V_last": m1_[1]["V_last"], "V_var": m2_[1]["V_var"]}) \
-                    and has(f"self.emit_variable_deinit(V_var, ANY)", n_.body[0],
-                            {"V_var": m2_[1]["V_var"]}):
+                    and any(has(f"self.emit_variable_deinit(V_var, ANY)", s_,
+                                {"V_var": m2_[1]["V_var"]}) for s_ in n_.body):
                 ok = True
     run.ob("C12.lastuse", d, d.node, ok,
            construct="release only when this statement is the last use and the variable "
@@ -445,8 +450,9 @@ def _lastuse(run, P):
            why="persistent variables live until shutdown")
     for name in ("emit_inst_Assign", "emit_inst_AssignFunctionCall"):
         m = P.func(f"{GEN}.{name}")
-        body = [ast.unparse(s) for s in m.node.body]
-        ok = body and body[-1] == "self.emit_deinit_for_last_usage_of_vars(inst)"
+        from .util import last_effective
+        le = last_effective(m.node.body)
+        ok = le is not None and ast.unparse(le) == "self.emit_deinit_for_last_usage_of_vars(inst)"
         run.ob("C12.lastuse", m, m.node, ok,
                construct=f"{name}: release at last use is the last thing emitted",
                why="released before the statement's own code the operands are gone")
